@@ -1,7 +1,18 @@
 from vlib import H
 PROPERTY = 'C48'
 LEVEL = 'model_checking'
-CLAIM = ('wip')
+CLAIM = ('Real serialization and text-codec code of Bitcoin Core executed symbolically against references written from the format documents: '
+         '(1) CompactSize: WriteCompactSize bytes == reference for all 2^64 values, ReadCompactSize(Write(n)) == n, and on ALL byte strings of every truncation class up to the full 9 bytes '
+         'ReadCompactSize accepts exactly the complete, shortest-form, in-range (MAX_SIZE under range_check) encodings; '
+         '(2) VARINT (both modes, 32/64 bit): written bytes denote n under the documented formula, read(write(n)) == n for all n, and on all byte strings of the maximal length the reader accepts exactly '
+         'the terminated strings whose value fits the type; '
+         '(3) transactions: SerializeTransaction (TX_WITH_WITNESS / TX_NO_WITNESS) over DataStream equals an independent BIP144 serializer byte for byte, GetSerializeSize agrees, '
+         'UnserializeTransaction returns the original object field by field, txid/wtxid are double hashes of exactly the basic/extended serialization (recording hash model), superfluous-witness, '
+         'unknown-flag and truncated streams are rejected; '
+         '(4) hex / base64 / base32: encoders equal RFC 4648 / lowercase-hex references and decode(encode(b)) == b for all byte strings of the stated lengths; on ALL character strings of the stated lengths the '
+         'decoders accept exactly the well-formed strings and an accepted string is the canonical encoding of its value; '
+         '(5) ParseMoney on all character strings of <= 3 characters and on digit-shaped strings equals the reference grammar/value, incl. the 21,000,000-coin boundary probes. '
+         'Not covered: blocks/headers/P2P payload classes, FormatMoney (tinyformat), integer-string parsers, base58 (see C45), non-canonical CompactSize inside a transaction stream (covered at kernel level only).')
 TPH = '_Z11TryParseHexIhESt8optionalISt6vectorIT_SaIS2_EEESt17basic_string_viewIcSt11char_traitsIcEE'
 # every heap allocation in these harnesses is asserted to be <= 32 bytes (rt.c VERIF_ALLOC_MAX), which removes the large size classes from infeasible vector-reallocation paths
 SMALL = ['-D', 'VERIF_ALLOC_MAX=32']
@@ -9,64 +20,77 @@ D64 = '_Z12DecodeBase64St17basic_string_viewIcSt11char_traitsIcEE'
 D32 = '_Z12DecodeBase32St17basic_string_viewIcSt11char_traitsIcEE'
 def dec_unwind(fn, nchars):   # ConvertBits loop over a string whose end pointer is symbolic after '=' stripping: bound = characters + 2
     return lambda v: '%s.0:%d,%s.1:%d' % (fn, nchars(v) + 2, fn, nchars(v) + 2)
+def tph_unwind(nchars):       # TryParseHex loop: the iterator is symbolic after the first whitespace/digit split
+    return lambda v: '%s.0:%d,%s.1:%d' % (TPH, nchars(v) + 2, TPH, nchars(v) + 2)
+CLEANSE = ['memory_cleanse (zeroing on free, support/cleanse.cpp) is a no-op']
 MONEY_FN = ['ParseMoney', 'util::TrimString', 'util::ContainsNoNUL', 'LocaleIndependentAtoi<int64_t>', 'std::from_chars (libstdc++ header)', 'MoneyRange']
+MONEY_ST = ['tinyformat.h shadowed (ref/nofmt): FormatMoney is not executed']
 TXLINK = ['primitives/transaction.cpp', 'script/script.cpp', 'uint256.cpp', 'hash.cpp']
 TXFN = ['SerializeTransaction', 'UnserializeTransaction', 'CTxIn/CTxOut/COutPoint SERIALIZE_METHODS', 'VectorFormatter / prevector / vector<unsigned char> Serialize+Unserialize', 'WriteCompactSize/ReadCompactSize', 'DataStream', 'GetSerializeSize']
-TXST = ['CSHA256 replaced by a recording model (digest = sequence number of the hashed message; messages logged)', 'memory_cleanse no-op']
+TXST = ['CSHA256 replaced by a recording model (digest = sequence number of the hashed message; messages logged)'] + CLEANSE
 def txs(nin, nout, wmask=0, **kw):
     d = {'NIN': nin, 'NOUT': nout, 'WMASK': wmask}; d.update(kw); return d
-TXSHAPES = [txs(1, 1), txs(1, 1, 1), txs(2, 2, 2), txs(2, 1, 3), txs(2, 2), txs(1, 2, 1, SSLEN=0, PKLEN=0, WLEN=0), txs(0, 0)]
-TXSHAPES_T = TXSHAPES + [txs(3, 3, 5, WITEMS=2), txs(3, 1, 7, SSLEN=3, PKLEN=3, WLEN=3), txs(1, 1, 1, SSLEN=253, PKLEN=1, WLEN=1)]
+TXQ = [txs(1, 1), txs(1, 1, 1), txs(2, 2, 2), txs(0, 0)]
+TXT = TXQ + [txs(2, 1, 3), txs(1, 2, 1, SSLEN=0, PKLEN=0, WLEN=0), txs(2, 2), txs(3, 3, 5, WITEMS=2), txs(3, 1, 7, SSLEN=3, PKLEN=3, WLEN=3)]
+TXBAD = [txs(1, 1, 0, KIND=2), txs(1, 1, 1, KIND=6, CUT=1), txs(1, 1, 0, KIND=6, CUT=4)]
+TXBAD_T = TXBAD + [txs(2, 1, 0, KIND=2), txs(1, 1, 1, KIND=6, CUT=9), txs(2, 2, 2, KIND=6, CUT=1)]
+TXFLAG = [txs(1, 1, 1, KIND=1, FLAG=f) for f in (0, 2, 3)]
+TXFLAG_T = [txs(1, 1, 1, KIND=1, FLAG=f) for f in (0, 1, 2, 3, 4, 128, 129, 255)] + [txs(2, 1, 2, KIND=1, FLAG=3)]
 SE = ['util/strencodings.cpp', 'crypto/hex_base.cpp']
+K = dict(objbits=10, diff_runs=16)
 HARNESSES = [
-    H('cs_write_read', 'compact.cpp', 'h_cs_write_read', unwind=12, timeout=120, objbits=10, diff_runs=16,
+    H('cs_write_read', 'compact.cpp', 'h_cs_write_read', unwind=12, timeout=120, stubs=CLEANSE,
       functions=['WriteCompactSize<DataStream>', 'ReadCompactSize<DataStream>', 'GetSizeOfCompactSize', 'DataStream::read/write (streams.h)', 'ser_writedata*/ser_readdata* (serialize.h)'],
-      stubs=['memory_cleanse (zeroing on free) is a no-op'],
-      bounds='all 2^64 values in one query; range_check symbolic'),
-    H('cs_read_all', 'compact.cpp', 'h_cs_read_all', variants=[{'LEN': l} for l in (0, 1, 2, 3, 4, 5, 8, 9)], unwind=12, timeout=120, objbits=10, diff_runs=16,
-      functions=['ReadCompactSize<DataStream>'], stubs=['memory_cleanse (zeroing on free) is a no-op'],
-      bounds='all byte strings of length 0,1,2,3,4,5,8,9 (every truncation class and the full 9-byte domain); range_check symbolic'),
-    H('varint_write_read', 'varint.cpp', 'h_varint_write_read', variants=[{'ITYPE': t} for t in range(4)], unwind=12, timeout=120, objbits=10, diff_runs=16,
-      functions=['WriteVarInt<DataStream,Mode,I>', 'ReadVarInt<DataStream,Mode,I>', 'GetSizeOfVarInt<Mode,I>'], stubs=['memory_cleanse (zeroing on free) is a no-op'],
-      bounds='all values of uint64_t, uint32_t (DEFAULT) and all non-negative int64_t, int32_t (NONNEGATIVE_SIGNED)'),
-    H('varint_read_all', 'varint.cpp', 'h_varint_read_all', variants=[{'ITYPE': 0, 'LEN': 10}, {'ITYPE': 1, 'LEN': 6}, {'ITYPE': 2, 'LEN': 10}, {'ITYPE': 3, 'LEN': 6}, {'ITYPE': 0, 'LEN': 3}, {'ITYPE': 0, 'LEN': 0}],
-      unwind=12, timeout=120, objbits=10, diff_runs=16, functions=['ReadVarInt<DataStream,Mode,I>'], stubs=['memory_cleanse (zeroing on free) is a no-op'],
-      bounds='all byte strings of length 10 (64-bit types; longest possible encoding), 6 (32-bit types; one more than the longest encoding), 3 and 0'),
-    H('hex_roundtrip', 'hex.cpp', 'h_hex_roundtrip', link=['util/strencodings.cpp', 'crypto/hex_base.cpp'], variants=[{'NB': n} for n in (0, 1, 3)], tvariants=[{'NB': n} for n in (0, 1, 2, 3, 4, 6, 8)],
-      unwind=18, unwindset=lambda v: '%s.0:%d,%s.1:%d' % (TPH, 2 * v['NB'] + 2, TPH, 2 * v['NB'] + 2), memunwind=10, cbmc=SMALL, timeout=120, objbits=10, diff_runs=16, functions=['HexStr (crypto/hex_base.cpp)', 'TryParseHex<uint8_t>', 'IsHex', 'HexDigit'],
-      bounds='all byte strings of length 0,1,3 (thorough: up to 8)'),
-    H('hex_parse_all', 'hex.cpp', 'h_hex_parse_all', link=['util/strencodings.cpp', 'crypto/hex_base.cpp'], variants=[{'NC': l} for l in (0, 1, 2, 3, 4)], tvariants=[{'NC': l} for l in (0, 1, 2, 3, 4, 5, 6)],
-      unwind=8, unwindset=lambda v: '%s.0:%d,%s.1:%d' % (TPH, v['NC'] + 2, TPH, v['NC'] + 2), memunwind=10, cbmc=SMALL, diff_runs=16, timeout=120, objbits=10, functions=['TryParseHex<uint8_t>', 'ParseHex<uint8_t>', 'IsHex', 'HexDigit', 'IsSpace'],
-      bounds='all character strings (256 values per character) of length 0..4 (thorough: 0..6)'),
-    H('b64_roundtrip', 'basenn.cpp', 'h_b64_roundtrip', link=SE, variants=[{'NB': n} for n in (0, 1, 2, 3, 4)], tvariants=[{'NB': n} for n in range(0, 10)],
-      unwind=20, unwindset=dec_unwind(D64, lambda v: 4 * ((v['NB'] + 2) // 3)), memunwind=12, cbmc=SMALL, opt='-O2', diff_runs=16, timeout=120, objbits=10, functions=['EncodeBase64', 'DecodeBase64', 'ConvertBits<8,6,true>', 'ConvertBits<6,8,false>'],
-      bounds='all byte strings of length 0..4 (thorough: 0..9)'),
-    H('b64_decode_all', 'basenn.cpp', 'h_b64_decode_all', link=SE, variants=[{'NC': n} for n in (0, 3, 4, 8)], tvariants=[{'NC': n} for n in (0, 1, 2, 3, 4, 5, 8, 12)],
-      unwind=20, unwindset=dec_unwind(D64, lambda v: v['NC']), memunwind=12, cbmc=SMALL, opt='-O2', diff_runs=16, timeout=120, objbits=10, functions=['DecodeBase64', 'ConvertBits<6,8,false>'],
-      bounds='all character strings (256 values per character) of length 0,3,4,8 (thorough: also 1,2,5,12)'),
-    H('b32_roundtrip', 'basenn.cpp', 'h_b32_roundtrip', link=SE, variants=[{'NB': n} for n in (0, 1, 2, 3, 4, 5)] + [{'NB': n, 'NOPAD': 1} for n in (1, 4)], tvariants=[{'NB': n} for n in range(0, 11)] + [{'NB': n, 'NOPAD': 1} for n in range(0, 11)],
-      unwind=20, unwindset=dec_unwind(D32, lambda v: 8 * ((v['NB'] + 4) // 5)), memunwind=12, cbmc=SMALL, opt='-O2', diff_runs=16, timeout=120, objbits=10, functions=['EncodeBase32', 'DecodeBase32', 'ConvertBits<8,5,true>', 'ConvertBits<5,8,false>'],
-      bounds='all byte strings of length 0..5 padded, 1 and 4 unpadded (thorough: 0..10 both)'),
-    H('b32_decode_all', 'basenn.cpp', 'h_b32_decode_all', link=SE, variants=[{'NC': n} for n in (0, 7, 8)], tvariants=[{'NC': n} for n in (0, 7, 8, 16)],
-      unwind=20, unwindset=dec_unwind(D32, lambda v: v['NC']), memunwind=12, cbmc=SMALL, opt='-O2', diff_runs=16, timeout=120, objbits=10, functions=['DecodeBase32', 'ConvertBits<5,8,false>'],
-      bounds='all character strings (256 values per character) of length 0,7,8 (thorough: also 16)'),
-    H('money_parse_all', 'money.cpp', 'h_money_parse_all', link=['util/moneystr.cpp'], variants=[{'NC': n} for n in (0, 1, 2, 3)],
-      unwind=6, memunwind=8, cbmc=SMALL, opt='-O2', diff_runs=16, timeout=180, objbits=10, nofmt=True, functions=MONEY_FN,
-      bounds='all character strings (256 values per character) of length 0..3'),
-    H('money_parse_all_t', 'money.cpp', 'h_money_parse_all', link=['util/moneystr.cpp'], variants=[{'NC': n} for n in (4, 5)], tier='thorough',
-      unwind=8, memunwind=8, cbmc=SMALL, opt='-O2', diff_runs=16, timeout=900, objbits=10, nofmt=True, functions=MONEY_FN,
-      bounds='all character strings (256 values per character) of length 4..5'),
-    H('money_digits_short', 'money.cpp', 'h_money_digits', link=['util/moneystr.cpp'], variants=[{'W': 1, 'F': 2}, {'W': 0, 'F': 0, 'DOT': 1}, {'W': 3, 'F': 0}],
-      unwind=7, memunwind=8, cbmc=SMALL, opt='-O2', diff_runs=16, timeout=180, objbits=10, nofmt=True, functions=MONEY_FN,
-      bounds='digit strings d.dd, "." and ddd, all digit values'),
-    H('money_digits', 'money.cpp', 'h_money_digits', link=['util/moneystr.cpp'], variants=[{'W': 8, 'F': 0, 'PIN': 2100000}, {'W': 8, 'F': 8, 'PIN': 2100000, 'PINF': 1}, {'W': 1, 'F': 9}, {'W': 11, 'F': 0, 'PIN': 1000000000}],
-      unwind=20, memunwind=20, cbmc=SMALL, opt='-O2', diff_runs=16, timeout=180, objbits=10, nofmt=True, functions=MONEY_FN,
-      bounds='digit strings of shape W whole digits . F decimals, all digit values: (8,8) covers every amount below 1e8 coins at satoshi precision incl. the 21,000,000 coin / MAX_MONEY+1 boundary; (2,9) and (11,0) the length limits (thorough: W in 0,1,7..11 x F in 0,2,8,9)'),
-    H('tx_roundtrip', 'tx.cpp', 'h_tx_roundtrip', link=TXLINK, variants=TXSHAPES, tvariants=TXSHAPES_T,
-      unwind=260, memunwind=260, timeout=300, objbits=11, diff_runs=16, cbmc=['--max-field-sensitivity-array-size', '1100'], functions=TXFN, stubs=TXST,
-      bounds='shapes (nin, nout, witness mask, script lengths) listed in spec.py: nin,nout <= 2, scripts <= 2 bytes, witness stacks <= 1 item of 2 bytes (thorough: <= 3 inputs/outputs, 2 items, 3-byte scripts, 253-byte script => 3-byte compact size); all scalar fields and all script/witness/hash bytes symbolic',
+      bounds='all 2^64 values in one query; range_check symbolic', **K),
+    H('cs_read_all', 'compact.cpp', 'h_cs_read_all', variants=[{'LEN': l} for l in (1, 3, 5, 9)], tvariants=[{'LEN': l} for l in range(0, 10)], unwind=12, timeout=120,
+      functions=['ReadCompactSize<DataStream>'], stubs=CLEANSE,
+      bounds='all byte strings of length 1,3,5,9 (thorough: every length 0..9): every truncation class and the full 9-byte domain; range_check symbolic', **K),
+    H('varint_write_read', 'varint.cpp', 'h_varint_write_read', variants=[{'ITYPE': t} for t in range(4)], unwind=12, timeout=120,
+      functions=['WriteVarInt<DataStream,Mode,I>', 'ReadVarInt<DataStream,Mode,I>', 'GetSizeOfVarInt<Mode,I>'], stubs=CLEANSE,
+      bounds='all values of uint64_t, uint32_t (DEFAULT) and all non-negative int64_t, int32_t (NONNEGATIVE_SIGNED)', **K),
+    H('varint_read_all', 'varint.cpp', 'h_varint_read_all', variants=[{'ITYPE': 0, 'LEN': 10}, {'ITYPE': 1, 'LEN': 6}, {'ITYPE': 2, 'LEN': 10}, {'ITYPE': 3, 'LEN': 6}],
+      tvariants=[{'ITYPE': t, 'LEN': l} for t in range(4) for l in (0, 1, 3, 5, 6, 9, 10)],
+      unwind=12, timeout=120, functions=['ReadVarInt<DataStream,Mode,I>'], stubs=CLEANSE,
+      bounds='all byte strings of length 10 (64-bit types; longest possible encoding) and 6 (32-bit types; one more than the longest encoding); thorough: lengths 0,1,3,5,6,9,10 for each type', **K),
+    H('hex_roundtrip', 'hex.cpp', 'h_hex_roundtrip', link=SE, variants=[{'NB': n} for n in (1, 3)], tvariants=[{'NB': n} for n in (0, 1, 2, 3, 4, 6, 8)],
+      unwind=18, unwindset=tph_unwind(lambda v: 2 * v['NB']), memunwind=10, cbmc=SMALL, timeout=120, functions=['HexStr (crypto/hex_base.cpp)', 'TryParseHex<uint8_t>', 'IsHex', 'HexDigit'],
+      bounds='all byte strings of length 1,3 (thorough: 0..4,6,8)', **K),
+    H('hex_parse_all', 'hex.cpp', 'h_hex_parse_all', link=SE, variants=[{'NC': l} for l in (2, 3, 4)], tvariants=[{'NC': l} for l in (0, 1, 2, 3, 4, 5, 6)],
+      unwind=8, unwindset=tph_unwind(lambda v: v['NC']), memunwind=10, cbmc=SMALL, timeout=120, functions=['TryParseHex<uint8_t>', 'ParseHex<uint8_t>', 'IsHex', 'HexDigit', 'IsSpace'],
+      bounds='all character strings (256 values per character) of length 2..4 (thorough: 0..6)', **K),
+    H('b64_roundtrip', 'basenn.cpp', 'h_b64_roundtrip', link=SE, variants=[{'NB': n} for n in (1, 2, 3)], tvariants=[{'NB': n} for n in range(0, 10)],
+      unwind=20, unwindset=dec_unwind(D64, lambda v: 4 * ((v['NB'] + 2) // 3)), memunwind=12, cbmc=SMALL, opt='-O2', timeout=120, functions=['EncodeBase64', 'DecodeBase64', 'ConvertBits<8,6,true>', 'ConvertBits<6,8,false>'],
+      bounds='all byte strings of length 1..3 (thorough: 0..9)', **K),
+    H('b64_decode_all', 'basenn.cpp', 'h_b64_decode_all', link=SE, variants=[{'NC': n} for n in (4, 8)], tvariants=[{'NC': n} for n in (0, 1, 2, 3, 4, 5, 8, 12)],
+      unwind=20, unwindset=dec_unwind(D64, lambda v: v['NC']), memunwind=12, cbmc=SMALL, opt='-O2', timeout=120, functions=['DecodeBase64', 'ConvertBits<6,8,false>'],
+      bounds='all character strings (256 values per character) of length 4,8 (thorough: also 0,1,2,3,5,12)', **K),
+    H('b32_roundtrip', 'basenn.cpp', 'h_b32_roundtrip', link=SE, variants=[{'NB': n} for n in (2, 5)] + [{'NB': 4, 'NOPAD': 1}], tvariants=[{'NB': n} for n in range(0, 11)] + [{'NB': n, 'NOPAD': 1} for n in range(0, 11)],
+      unwind=20, unwindset=dec_unwind(D32, lambda v: 8 * ((v['NB'] + 4) // 5)), memunwind=12, cbmc=SMALL, opt='-O2', timeout=120, functions=['EncodeBase32', 'DecodeBase32', 'ConvertBits<8,5,true>', 'ConvertBits<5,8,false>'],
+      bounds='all byte strings of length 2,5 padded and 4 unpadded (thorough: 0..10 both)', **K),
+    H('b32_decode_all', 'basenn.cpp', 'h_b32_decode_all', link=SE, variants=[{'NC': n} for n in (7, 8)], tvariants=[{'NC': n} for n in (0, 7, 8, 16)],
+      unwind=20, unwindset=dec_unwind(D32, lambda v: v['NC']), memunwind=12, cbmc=SMALL, opt='-O2', timeout=120, functions=['DecodeBase32', 'ConvertBits<5,8,false>'],
+      bounds='all character strings (256 values per character) of length 7,8 (thorough: also 0,16)', **K),
+    H('money_parse_all', 'money.cpp', 'h_money_parse_all', link=['util/moneystr.cpp'], variants=[{'NC': n} for n in (2, 3)], tvariants=[{'NC': n} for n in (0, 1, 2, 3)],
+      unwind=6, memunwind=8, cbmc=SMALL, opt='-O2', timeout=180, nofmt=True, functions=MONEY_FN, stubs=MONEY_ST,
+      bounds='all character strings (256 values per character) of length 2..3 (thorough: 0..3)', **K),
+    H('money_parse_all_t', 'money.cpp', 'h_money_parse_all', link=['util/moneystr.cpp'], variants=[{'NC': 4}], tier='thorough',
+      unwind=8, memunwind=8, cbmc=SMALL, opt='-O2', timeout=1500, nofmt=True, functions=MONEY_FN, stubs=MONEY_ST,
+      bounds='all character strings (256 values per character) of length 4', **K),
+    H('money_digits_short', 'money.cpp', 'h_money_digits', link=['util/moneystr.cpp'], variants=[{'W': 1, 'F': 2}], tvariants=[{'W': 1, 'F': 2}, {'W': 0, 'F': 0, 'DOT': 1}, {'W': 3, 'F': 0}, {'W': 0, 'F': 3}],
+      unwind=7, memunwind=8, cbmc=SMALL, opt='-O2', timeout=180, nofmt=True, functions=MONEY_FN, stubs=MONEY_ST,
+      bounds='digit strings d.dd (thorough: also ".", ddd, .ddd), all digit values', **K),
+    H('money_digits', 'money.cpp', 'h_money_digits', link=['util/moneystr.cpp'], variants=[{'W': 8, 'F': 8, 'PIN': 2100000, 'PINF': 1}],
+      tvariants=[{'W': 8, 'F': 0, 'PIN': 2100000}, {'W': 8, 'F': 8, 'PIN': 2100000, 'PINF': 1}, {'W': 1, 'F': 9}, {'W': 11, 'F': 0, 'PIN': 1000000000}, {'W': 10, 'F': 0, 'PIN': 100000000}],
+      unwind=20, memunwind=20, cbmc=SMALL, opt='-O2', timeout=240, nofmt=True, functions=MONEY_FN, stubs=MONEY_ST,
+      bounds='boundary probes with ONE symbolic whole digit (and one symbolic last decimal): "2100000D.0000000E" (21,000,000 coins / MAX_MONEY+1 satoshi boundary) ; thorough: also "1000000000D" (11 whole digits), "2100000D", d.ddddddddd (9 decimals, all digits symbolic), 10 whole digits. Fully symbolic 8+8-digit strings did not finish.', **K),
+    H('tx_roundtrip', 'tx.cpp', 'h_tx_roundtrip', link=TXLINK, variants=TXQ, tvariants=TXT, unwind=260, memunwind=260, timeout=300, objbits=11, diff_runs=16, fsarray=1100, functions=TXFN, stubs=TXST,
+      bounds='shapes (nin, nout, witness mask): 1x1, 1x1+w, 2x2 (witness on input 1), 0x0; scripts 2 bytes, witness stack 1 item of 2 bytes (thorough: 2x1 (both witnesses), 1x2 with empty scripts and an empty witness item, 2x2, 3x3 with 2-item stacks, 3x1 with 3-byte scripts); all scalar fields and all script/witness/hash bytes symbolic',
       assumptions=['nin >= 1, or nin == nout == 0: a transaction without inputs but with outputs has no unambiguous TX_WITH_WITNESS encoding (documented marker ambiguity, BIP144)']),
-    H('tx_ids', 'tx.cpp', 'h_tx_ids', link=TXLINK, variants=TXSHAPES[:4], tvariants=TXSHAPES,
-      unwind=260, memunwind=260, timeout=300, objbits=11, diff_runs=16, cbmc=['--max-field-sensitivity-array-size', '1100'], functions=TXFN + ['CTransaction::ComputeHash', 'CTransaction::ComputeWitnessHash', 'HashWriter::write/GetHash'], stubs=TXST,
-      bounds='same shapes; digest values abstracted by the recording model'),
+    H('tx_ids', 'tx.cpp', 'h_tx_ids', link=TXLINK, variants=TXQ[1:3], tvariants=TXT, unwind=260, memunwind=260, timeout=300, objbits=11, diff_runs=16, fsarray=1100,
+      functions=TXFN + ['CTransaction::ComputeHash', 'CTransaction::ComputeWitnessHash', 'CTransaction::ComputeHasWitness', 'HashWriter::write/GetHash'], stubs=TXST,
+      bounds='shapes 1x1+w, 2x2+w (thorough: all round-trip shapes); digest values abstracted by the recording model'),
+    H('tx_malformed', 'tx.cpp', 'h_tx_malformed', link=TXLINK, variants=TXBAD, tvariants=TXBAD_T, unwind=260, memunwind=260, timeout=300, objbits=11, diff_runs=16, fsarray=1100, functions=TXFN, stubs=TXST,
+      bounds='streams built by the reference serializer for shape 1x1 with one structural defect each: extended form with only empty witness stacks (superfluous witness); truncation by 1 and 4 bytes (thorough: also 2x1, 9 bytes, 2x2); payload symbolic'),
+    H('tx_flag', 'tx.cpp', 'h_tx_malformed', link=TXLINK, variants=TXFLAG, tvariants=TXFLAG_T, unwind=260, memunwind=260, timeout=300, objbits=11, diff_runs=16, fsarray=1100, functions=TXFN, stubs=TXST,
+      bounds='extended-form 1x1 stream carrying a witness with flag byte 0, 2, 3 (thorough: 0,1,2,3,4,0x80,0x81,0xff and 2x1); flag concrete per query (a symbolic flag byte did not finish); payload symbolic'),
 ]
